@@ -4997,18 +4997,32 @@ MUTATIONS = [
      "clear_high_bits_large skips the cut inside the top word (Props/GenBitsHeap.gen_clear_high_bits_large)"),
     ("M47", "integer/src/bits.rs", r"\*last &= ones_word\(\(n % WORD_BITS_USIZE\) as u32\);", "*last &= ones_word((n % WORD_BITS_USIZE) as u32 + 1);",
      "clear_high_bits_large masks one bit too wide (Props/GenBitsHeap.gen_clear_high_bits_large)"),
-    ("M48", "integer/src/bits.rs", r"(fn bitand_large\(mut buffer: Buffer, rhs: &\[Word\]\) -> Repr \{\n)\s*if buffer\.len\(\) > rhs\.len\(\) \{\n\s*buffer\.truncate\(rhs\.len\(\)\);\n\s*\}\n", "\\1",
+    ("M148", "integer/src/bits.rs", r"(fn bitand_large\(mut buffer: Buffer, rhs: &\[Word\]\) -> Repr \{\n)\s*if buffer\.len\(\) > rhs\.len\(\) \{\n\s*buffer\.truncate\(rhs\.len\(\)\);\n\s*\}\n", "\\1",
      "bitand_large without the truncation to the shorter operand: high words of the longer buffer survive (Props/GenBitOpsHeap.gen_bitand_large)"),
-    ("M49", "integer/src/bits.rs", r"(fn bitor_large\(.*?)\*x \|= \*y;", "\\1*x ^= *y;",
+    ("M149", "integer/src/bits.rs", r"(fn bitor_large\(.*?)\*x \|= \*y;", "\\1*x ^= *y;",
      "bitor_large xors the common prefix (Props/GenBitOpsHeap.gen_bitor_large)"),
-    ("M50", "integer/src/bits.rs", r"(fn bitxor_large\(.*?)buffer\.push_slice\(&rhs\[buffer\.len\(\)\.\.\]\);", "\\1",
+    ("M150", "integer/src/bits.rs", r"(fn bitxor_large\(.*?)buffer\.push_slice\(&rhs\[buffer\.len\(\)\.\.\]\);", "\\1",
      "bitxor_large drops the rest of a longer rhs (Props/GenBitOpsHeap.gen_bitxor_large)"),
-    ("M51", "integer/src/bits.rs", r"\*x &= !\*y;", "*x &= *y;",
+    ("M151", "integer/src/bits.rs", r"\*x &= !\*y;", "*x &= *y;",
      "and_not_large without the complement (Props/GenBitOpsHeap.gen_and_not_large)"),
-    ("M52", "integer/src/bits.rs", r"words\[\.\.n_words\]\.iter\(\)\.any\(\|x\| \*x != 0\) \|\| ", "",
+    ("M152", "integer/src/bits.rs", r"words\[\.\.n_words\]\.iter\(\)\.any\(\|x\| \*x != 0\) \|\| ", "",
      "are_slice_low_bits_nonzero ignores the whole words below the cut: `IBig >> n` no longer floors (Props/GenScans.gen_are_slice_low_bits_nonzero)"),
-    ("M53", "integer/src/bits.rs", r"if n_words >= words\.len\(\) \{\n(\s*)true", "if n_words > words.len() {\n\\1true",
+    ("M153", "integer/src/bits.rs", r"if n_words >= words\.len\(\) \{\n(\s*)true", "if n_words > words.len() {\n\\1true",
      "are_slice_low_bits_nonzero leaves one word late: `words[len]` is indexed (Props/GenScans.gen_are_slice_low_bits_nonzero)"),
+    ("M154", "integer/src/shift_ops.rs", r"&\[lo, hi\] => Repr::from_dword\(double_word\(lo, hi\) >> shift_bits\),", "&[lo, hi] => Repr::from_dword(double_word(hi, lo) >> shift_bits),",
+     "shr_large_ref two-word shortcut builds the double word with the halves exchanged (Props/GenShiftHeap.gen_shr_large_ref; round-3 mutant m11's site)"),
+    ("M155", "integer/src/bits.rs", r"buffer\[idx\] &= !\(1 << \(n % WORD_BITS_USIZE\)\);", "buffer[idx] &= 1 << (n % WORD_BITS_USIZE);",
+     "clear_bit (heap arm) keeps only the bit instead of clearing it (Props/GenBitsHeap.gen_clear_bit_large)"),
+    ("M156", "integer/src/bits.rs", r"let hi = shift_ops::repr::shr_large_ref\(&buffer, n\);\n(\s*)let lo = clear_high_bits_large\(buffer, n\);\n(\s*)\(lo, hi\)", "let hi = shift_ops::repr::shr_large_ref(&buffer, n);\n\\1let lo = clear_high_bits_large(buffer, n);\n\\2(hi, lo)",
+     "split_bits (heap arm) returns (high, low) (Props/GenBitsHeap.gen_split_bits_large)"),
+    ("M157", "integer/src/bits.rs", r"(RefLarge\(buffer\) => \{\n\s*)let idx = n / WORD_BITS_USIZE;(\n\s*idx < buffer\.len\(\))", "\\1let idx = (n as u32 as usize) / WORD_BITS_USIZE;\\2",
+     "TypedReprRef::bit (heap arm) computes the word index from the position narrowed to u32 (round-4 mutant m16; Props/GenScans.gen_bit_large)"),
+    ("M158", "integer/src/bits.rs", r"words\.len\(\) \* WORD_BITS_USIZE - words\.last\(\)\.unwrap\(\)\.leading_zeros\(\) as usize", "words.len() * WORD_BITS_USIZE - words.last().unwrap().leading_zeros() as usize + 1",
+     "TypedReprRef::bit_len (heap arm) off by one (Props/GenScans.gen_bit_len_large)"),
+    ("M159", "integer/src/bits.rs", r"words\[\.\.words\.len\(\) - 1\]\.iter\(\)\.all\(\|x\| \*x == 0\)\n\s*&& words\.last\(\)\.unwrap\(\)\.is_power_of_two\(\)", "words.last().unwrap().is_power_of_two()",
+     "is_power_of_two (heap arm) does not look at the low words (round-3 mutant m08's class; Props/GenScans.gen_is_power_of_two_large)"),
+    ("M160", "integer/src/bits.rs", r"RefLarge\(words\) => words\.iter\(\)\.map\(\|w\| w\.count_ones\(\) as usize\)\.sum\(\),", "RefLarge(words) => words.iter().map(|w| w.count_zeros() as usize).sum(),",
+     "count_ones (heap arm) counts zero bits (Props/GenScans.gen_count_ones_large)"),
     # C01 operator dispatch (Gen/IntDispatch.lean, vlib/extract_intdispatch.py)
     ("M48", "integer/src/add_ops.rs", r"\(RefLarge\(words0\), Large\(buffer1\)\) => sub_large\(buffer1, words0\)\.neg\(\),", "(RefLarge(words0), Large(buffer1)) => sub_large(buffer1, words0),",
      "drop the `.neg()` of the large/large arm of `SubSigned<TypedRepr> for TypedReprRef`"),
